@@ -32,6 +32,7 @@ func checkC11(c *Check) {
 	c11BucketSet(c)
 	c11Wiring(c)
 	c11FreshPerKey(c)
+	c11ConnTable(c)
 	c11Pairing(c)
 	c11NoCrash(c)
 	c11Staleness(c)
@@ -1799,4 +1800,64 @@ func c11SharedCapture(p *Prog, info *types.Info, fl *ast.FuncLit) string {
 		return true
 	})
 	return msg
+}
+
+// R2c: the destination permit of a connection is returned by remoteDelivery.Close, which walks the delivery's
+// connection table. An entry that leaves the table any other way (delete, a fresh map) takes its permit with it: the
+// permit is never returned and, with `destination concurrency N`, N such events block the domain for good.
+func c11ConnTable(c *Check) {
+	p := c.P
+	c.Rule("R2c", "remote target: an entry leaves the delivery's connection table only together with the release of its destination permit (the table is never deleted from or replaced outside the path that calls ReleaseDest)", 1)
+	pk := p.Pkg(remoteRel)
+	if pk == nil {
+		c.Fail("R2c", "package", token.NoPos, "anchor unresolved")
+		return
+	}
+	isRel := calling("~/" + limitsRel + ".Group.ReleaseDest")
+	n := 0
+	p.AllFuncs([]*packagesPkg{pk}, func(fi *FuncInfo) {
+		info := fi.Info()
+		var sites []ast.Node
+		ast.Inspect(fi.Decl.Body, func(x ast.Node) bool {
+			switch s := x.(type) {
+			case *ast.CallExpr:
+				if id, ok := s.Fun.(*ast.Ident); ok && (id.Name == "delete" || id.Name == "clear") && len(s.Args) >= 1 {
+					if fv := fieldOf(info, s.Args[0]); fv != nil && objName(fv) == "connections" {
+						sites = append(sites, s)
+					}
+				}
+			case *ast.AssignStmt:
+				for _, l := range s.Lhs {
+					if fv := fieldOf(info, l); fv != nil && objName(fv) == "connections" {
+						if o := fieldOwner(p, fv); o != nil && objName(o.Obj()) == "remoteDelivery" {
+							sites = append(sites, s)
+						}
+					}
+				}
+			}
+			return true
+		})
+		if len(sites) == 0 {
+			return
+		}
+		r := c.CtxOf(fi)
+		rels := r.Calls(isRel)
+		for _, s := range sites {
+			n++
+			pt, ok := r.F.PtOfNode(s)
+			msg := ""
+			if !ok {
+				msg = "undecided: the statement was not found in the flow graph"
+			} else if len(rels) == 0 {
+				msg = "a connection is removed from the delivery's table (line " + itoa(p.Fset.Position(s.Pos()).Line) + ") in a function that never returns the destination permit taken for it: Close will not see the entry any more – the permit leaks, after N such events `destination concurrency N` blocks the domain"
+			} else if okMP, w := r.MustPass([]Pt{pt}, false, r.F.IsExitPt, isPt(rels)); !okMP {
+				if okBefore, _ := r.MustPass(r.Entry(), true, func(q Pt) bool { return q == pt }, isPt(rels)); !okBefore {
+					msg = "a connection is removed from the delivery's table on a path that does not return its destination permit: " + w
+				}
+			}
+			c.Hold("R2c", refName(fi.Obj)+":table"+itoa(n), s.Pos(), msg == "", msg)
+		}
+	})
+	// the table is created once, where the delivery is created (Start); that literal is not a site above
+	c.Hold("R2c", "remoteDelivery.connections:sites", token.NoPos, true, "")
 }
